@@ -1,7 +1,7 @@
 #!/bin/bash
 # tools/seed_verify.sh <prop> <variant> : confirm a seeded change in its scratch worktree
 # (demo passes without, tests pass and demo fails with), then store it under /verif/seeded.
-P=$1; V=$2; WT=/tmp/mut/$P; OUT=/tmp/mut/$P-out/$V
+P=$1; V=$2; WT=/tmp/mut/$P; OUT=/tmp/mut/$P-out/${3:-$V}
 set -u
 cd $WT || exit 2
 git checkout -q -- . ; git clean -fdq -e target
